@@ -55,20 +55,19 @@ def __getitem__(self, indx):
     elif np.all(post_mask):                     # post-mask is True
         result_mask = True
     else:                                       # post-mask is array
+        # Align the post-mask with the result axes indexed by arrays
+        loc = 0 if moved_to_front else first_array_loc
+        axes = len(result_shape) - loc - len(array_shape)
+        post_mask = np.broadcast_to(post_mask, array_shape)
+        post_mask = post_mask.reshape(array_shape + axes * (1,))
+
         if np.shape(self._mask_):               # self-mask is array
-            result_mask = self._mask_[pre_index].copy()
-            result_mask[post_mask] = True
+            result_mask = self._mask_[pre_index] | post_mask
         elif self._mask_:                       # self-mask is True
             result_mask = True
         else:                                   # self-mask is False
-            if post_mask.shape == result_shape:
-                result_mask = post_mask.copy()
-            else:
-                result_mask = np.zeros(result_shape, dtype=np.bool_)
-                axes = len(result_shape) - post_mask.ndim
-                new_shape = post_mask.shape + axes * (1,)
-                mask = post_mask.reshape(new_shape)
-                result_mask[...] = mask
+            result_mask = np.zeros(result_shape, dtype=np.bool_)
+            result_mask[...] = post_mask
 
     # Relocate the axes indexed by arrays if necessary
     if moved_to_front:
@@ -163,6 +162,7 @@ def __setitem__(self, indx, arg):
             self._mask_ = np.zeros(self._shape_, dtype=np.bool_)
 
     # Create a view of the arg with array-indexed axes moved to front
+    array_loc = 0 if moved_to_front else first_array_loc
     if moved_to_front:
         rank = len(array_shape)
         arg_rank = len(arg._shape_)
@@ -195,25 +195,23 @@ def __setitem__(self, indx, arg):
 
     else:                                    # post-mask is an array
 
-        # antimask is False wherever the index is masked
-        antimask = np.logical_not(post_mask)
-
+        # antimask is False wherever the index is masked; align it with the
+        # axes of the selection that are indexed by arrays
         selection = self._values_[vals_index]
+        shape = selection.shape[:selection.ndim - self._rank_]
+        axes = len(shape) - array_loc - len(array_shape)
+        antimask = np.logical_not(np.broadcast_to(post_mask, array_shape))
+        antimask = antimask.reshape(array_shape + axes * (1,))
+        antimask = np.broadcast_to(antimask, shape)
 
-        if np.shape(arg_values):
-            selection[antimask] = arg_values[antimask]
-        else:
-            selection[antimask] = arg_values
+        arg_values = np.broadcast_to(arg_values, selection.shape)
+        selection[antimask] = arg_values[antimask]
 
         self._values_[vals_index] = selection
 
         if np.shape(self._mask_):
             selection = self._mask_[pre_index]
-
-            if np.shape(arg_mask):
-                selection[antimask] = arg_mask[antimask]
-            else:
-                selection[antimask] = arg_mask
+            selection[antimask] = np.broadcast_to(arg_mask, shape)[antimask]
 
             self._mask_ = self._mask_.copy()    # copy; it might be shared
             self._mask_[pre_index] = selection
